@@ -96,10 +96,10 @@ fn dirty(rng: &mut Rng) -> usize {
         let ok = match rng.below(7) {
             0 => sync::run_loom(&sync::SProg { threads: vec![vec![Lock(0), Lock(1), Unlock(1), Unlock(0)], vec![Lock(1), Lock(0), Unlock(0), Unlock(1)]], loom_arc: rng.chance(1, 2), forget_rx: false, rx_owner: 0 }, &sync::SCfg { iter_cap: 10_000, max_branches: 5000, ..Default::default() }).panic.is_some(),
             1 => lit::run(&lit::Prog { nlocs: 1, pre: vec![], threads: vec![vec![Op::CellWrite { c: 0 }], vec![Op::CellWrite { c: 0 }]] }, &lit::Cfg { iter_cap: 10_000, ..Default::default() }).panic.is_some(),
-            2 => arcs::run_loom(&arcs::AProg { threads: vec![vec![arcs::AOp::Forget], vec![arcs::AOp::AllocLeak]], panic_in_drop: false, detached: false }, 10_000).panic.is_some(),
+            2 => arcs::run_loom(&arcs::AProg { threads: vec![vec![arcs::AOp::Forget], vec![arcs::AOp::AllocLeak]], panic_in_drop: false, detached: false, shared: false }, 10_000).panic.is_some(),
             3 => lit::run(&lit::Prog { nlocs: 1, pre: vec![], threads: vec![vec![Op::Await { loc: 0, ord: Acq, spin_hint: false, min: 1, ann: None }], vec![Op::Load { loc: 0, ord: Rlx }]] }, &lit::Cfg { iter_cap: 10_000, max_branches: Some(50), ..Default::default() }).panic.is_some(),
             4 => sync::run_loom(&sync::SProg { threads: vec![vec![Recv], vec![Lock(0), Fail(1), Unlock(0)], vec![Park]], loom_arc: false, forget_rx: false, rx_owner: 0 }, &sync::SCfg { iter_cap: 10_000, max_branches: 5000, ..Default::default() }).panic.is_some(),
-            5 => arcs::run_loom(&arcs::AProg { threads: vec![vec![arcs::AOp::Count], vec![arcs::AOp::Clone, arcs::AOp::Drop]], panic_in_drop: true, detached: false }, 10_000).panic.is_some(),
+            5 => arcs::run_loom(&arcs::AProg { threads: vec![vec![arcs::AOp::Count], vec![arcs::AOp::Clone, arcs::AOp::Drop]], panic_in_drop: true, detached: false, shared: false }, 10_000).panic.is_some(),
             _ => sync::run_loom(&sync::SProg { threads: vec![vec![Send(1), Send(2)], vec![Send(11)]], loom_arc: false, forget_rx: true, rx_owner: 0 }, &sync::SCfg { iter_cap: 10_000, max_branches: 5000, ..Default::default() }).panic.is_some(),
         };
         failed += ok as usize;
